@@ -743,10 +743,10 @@ func (e *engWrap) waitEntered(sid uint64) {
 		if ok {
 			return
 		}
-		if k > 400000 {
+		if k > 4000 { // ~0.4 s: the goroutine is started right before the service's select
 			panic("scripted timeout: the delete never reached the engine")
 		}
-		time.Sleep(25 * time.Microsecond)
+		time.Sleep(100 * time.Microsecond)
 	}
 }
 
@@ -1316,7 +1316,7 @@ func runTraces(c *hx.Ctx, root string, r *hx.Rng, n int) error {
 		var out []emitted
 		var st map[string]int
 		var err error
-		for try := 0; try < 6; try++ {
+		for try := 0; try < 25; try++ {
 			out, st, err = playTrace(root, tr)
 			if err != errTooSlow {
 				break
